@@ -143,7 +143,24 @@ func ruleR14_1(r *Run) {
 				"every success exit after NewMutation passes through Execute (directly or via a callee/goroutine that executes it)",
 				"a success exit is reachable after downres.NewMutation without Execute: the lower-resolution levels are never recomputed for this change and the scales stay marked as updating", w.pos(c.Pos()), w.renderPath(p)...)
 			// (b) error exits release the scales too
-			pe := findPath(f, c, isHandoff, errx, s.EdgeFeasible)
+			// a (deferred) Abort releases the scales of a mutation that is not executed
+			isRelease := func(in ssa.Instruction) bool {
+				if isHandoff(in) {
+					return true
+				}
+				var cc *ssa.CallCommon
+				switch x := in.(type) {
+				case *ssa.Defer:
+					cc = &x.Call
+				case *ssa.Call:
+					cc = &x.Call
+				default:
+					return false
+				}
+				cal := cc.StaticCallee()
+				return cal != nil && cal.Name() == "Abort" && cal.Signature.Recv() != nil && typeIs(cal.Signature.Recv().Type(), "datatype/common/downres", "Mutation")
+			}
+			pe := findPath(f, c, isRelease, errx, s.EdgeFeasible)
 			construct := fname(f) + ":NewMutation-released-on-error"
 			if pe != nil {
 				if reason, ok := r.exception(construct); ok {
@@ -326,6 +343,14 @@ func ruleR14_3(r *Run) {
 			case "StoreDownres":
 				store = c
 			case "StopScaleUpdate":
+				// the per-level stop of the normal path: a success exit is reachable from it (a release loop on
+				// the error path also calls StopScaleUpdate and is checked by R14.8)
+				if findPath(ex, c, func(ssa.Instruction) bool { return false }, func(in ssa.Instruction) bool {
+					ret, ok := in.(*ssa.Return)
+					return ok && !isErrorExit(ret)
+				}, nil) == nil {
+					continue
+				}
 				stop = c
 			}
 		}
